@@ -164,6 +164,9 @@ def floordiv(a, b):
         raise Unsupported("floor division by zero")
     if not a.d.is_const() or not b.d.is_const():
         return F.fn("floordiv", a, b)
+    if not a.is_const() and all(c < 0 for k, c in a.n.scale(1 / a.d.const_value()).t.items() if k != ()) and not (b.is_const() and b.const_value() < 0):
+        # floor(-x / b) = -ceil(x / b) = -((x + b - 1) // b)   (b > 0: a count per line / per value / per word): -(-n // p) is (n + p - 1) // p
+        return -floordiv(-a + b - 1, b)
     bn = b.n.scale(1 / b.d.const_value())
     an = a.n.scale(1 / a.d.const_value())
     if len(bn.t) != 1:
@@ -374,6 +377,22 @@ def phi(c, a, b):
     if a.equals(b):
         return a
     return F.fn("phi", c, a, b)
+
+
+def assume(v, guard):
+    """a value on the paths a guard [(condition, taken)] describes: the selections on those conditions are resolved"""
+    if v is None or is_unknown(v) or isinstance(v, tuple):
+        return v
+    for c, pol in guard:
+        if c is None or is_unknown(c) or isinstance(c, tuple):
+            continue
+
+        def pre(d, c=c, pol=pol):
+            if d[0] == "fn" and d[1] == "phi" and same(_arg(d[2][0]), c, whole_values=False):
+                return assume(_arg(d[2][1 if pol else 2]), guard)
+            return None
+        v = rewrite(v, pre=pre)
+    return v
 
 
 def leaves(values, limit=12):
@@ -868,6 +887,8 @@ class CEval(AutoEvaluator):
         if isinstance(target, ast.Name) and target.id in self.buffers:
             self.walker.all_inits.append((target.id, v, st))
             self.walker.init_guards[id(st)] = self.walker.guard
+        if isinstance(target, ast.Subscript):
+            self.walker.cell_guards[id(st)] = self.walker.guard
         return super()._assign(target, v, st, aug)
 
     def _concrete_comp(self, node):
@@ -920,6 +941,12 @@ class CEval(AutoEvaluator):
             d = dotted(node)
             if d in KNOWN_CONSTS and d.split(".")[0] not in self.env:
                 return F.const(KNOWN_CONSTS[d])
+            if d is not None and d not in self.env and isinstance(node.ctx, ast.Load):
+                # a property of the class: the value its getter returns
+                f2 = self.walker.table.get(d)
+                if f2 is not None and _is_property(f2) and self.walker.follow is not False and d not in self.walker.no_inline:
+                    call = ast.copy_location(ast.Call(func=node, args=[], keywords=[]), node)
+                    return self.walker.inline(f2, call, self, d)
             if node.attr in ("start", "stop", "step") and isinstance(node.ctx, ast.Load):
                 base = self._ev(node.value)
                 if base is not None and not is_unknown(base) and not isinstance(base, tuple):
@@ -992,6 +1019,15 @@ class CEval(AutoEvaluator):
             return out
         if isinstance(node, ast.Constant) and isinstance(node.value, bytes):
             return F.sym(repr(node.value))
+        if isinstance(node, ast.Compare) and len(node.ops) > 1:
+            # a < b < c  is  a < b and b < c  (the middle operands are names or constants here: evaluated twice without harm)
+            parts, left = [], node.left
+            for op, right in zip(node.ops, node.comparators):
+                if any(isinstance(x, (ast.Call, ast.NamedExpr)) for x in ast.walk(right)):
+                    return Unknown("chained comparison over calls")
+                parts.append(ast.copy_location(ast.Compare(left=left, ops=[op], comparators=[right]), node))
+                left = right
+            return self._ev(ast.copy_location(ast.BoolOp(op=ast.And(), values=parts), node))
         if isinstance(node, ast.Compare) and len(node.ops) == 1 and isinstance(node.comparators[0], (ast.Tuple, ast.List)) \
                 or isinstance(node, ast.Compare) and len(node.ops) == 1 and isinstance(node.left, (ast.Tuple, ast.List)):
             a, b = self._ev(node.left), self._ev(node.comparators[0])
@@ -1038,7 +1074,10 @@ class CEval(AutoEvaluator):
             self.walker.assign(node.target, v, node)
             return v
         if isinstance(node, ast.Lambda):
-            return F.sym("lambda:" + ast.unparse(node))
+            # a function written in place: kept with the scope it was written in, entered when it is called
+            key = "lambda:" + ast.unparse(node) + f"@{node.lineno}"
+            self.walker.local_funcs[key] = _lambda_def(node)
+            return F.sym(key)
         if isinstance(node, ast.Dict):
             return F.sym("dict:" + ast.unparse(node))
         return super()._ev(node)
@@ -1073,8 +1112,10 @@ class Walker:
         self.spans = {}           # id(followed FunctionDef) -> (frame id, loops of that frame before the call, after the call)
         self._cells = []          # subscript stores of followed callees
         self.for_trips = []       # (frame of a `for`, its trip count) for the loops over range(n) / repeat(x, n)
+        self.local_funcs = {}     # name of a function defined inside a walked function (or key of a lambda) -> FunctionDef
         self.all_inits = []       # (buffer name, creating value, statement)
         self.init_guards = {}     # id(statement) -> guard under which a buffer was (re)bound
+        self.cell_guards = {}     # id(statement) -> guard under which a subscript store is made
         cache = ctx.__dict__.setdefault("_c11_tables_fx", {})
         if (rel, cls) not in cache:
             tb = _method_table(ctx, rel, cls)
@@ -1276,7 +1317,13 @@ class Walker:
         if isinstance(st, ast.Continue):
             self.frame.items.append(("exit", "continue"))
             return "continue"
-        if isinstance(st, (ast.Pass, ast.Assert, ast.Import, ast.ImportFrom, ast.Global, ast.Nonlocal, ast.Delete, ast.FunctionDef, ast.ClassDef)):
+        if isinstance(st, ast.FunctionDef):
+            # a local helper: entered where it is called, seeing the locals of the function it is defined in
+            key = f"local:{st.name}@{st.lineno}"
+            self.local_funcs[key] = st
+            ev.env[st.name] = F.sym(key)
+            return None
+        if isinstance(st, (ast.Pass, ast.Assert, ast.Import, ast.ImportFrom, ast.Global, ast.Nonlocal, ast.Delete, ast.ClassDef)):
             return None
         raise Stuck(f"statement {type(st).__name__} at line {st.lineno}")
 
@@ -1531,9 +1578,76 @@ class Walker:
                 return ("rotate", cond, s1, s2, after)
         return None
 
+    def _effectful(self, node):
+        """an expression whose evaluation reads the file or binds a name (a call of a file method / of a function that touches the file,
+        a walrus)"""
+        for n in ast.walk(node):
+            if isinstance(n, ast.NamedExpr):
+                return True
+            if isinstance(n, ast.Call):
+                d = dotted(n.func)
+                if isinstance(n.func, ast.Attribute) and (n.func.attr in _FILE_METHODS or n.func.attr in ("fromfile", "islice")):
+                    return True
+                if d in self.table and self.table[d] in self.effects:
+                    return True
+                if isinstance(n.func, ast.Name) and n.func.id in self.ev.env and self._bound_method(self.ev.env[n.func.id]) is not None:
+                    return True
+        return False
+
+    def _hoist_test(self, st):
+        """`while <test that reads / binds>: B`  ==  `while True: <the reads and bindings of the test>; if not <rest of the test>: break; B`"""
+        if st.orelse or not self._effectful(st.test):
+            return None
+        pre = []
+        count = [0]
+
+        def lift(node, sure):
+            """replace the effectful sub-expressions of a test by the names they are bound to; `sure`: evaluated on every evaluation of the test"""
+            if isinstance(node, ast.NamedExpr):
+                if not sure or not isinstance(node.target, ast.Name):
+                    raise Stuck(f"loop test at line {st.lineno} binds a name conditionally")
+                val = lift(node.value, sure)
+                pre.append(ast.copy_location(ast.Assign(targets=[ast.Name(id=node.target.id, ctx=ast.Store())], value=val), node))
+                return ast.copy_location(ast.Name(id=node.target.id, ctx=ast.Load()), node)
+            if isinstance(node, ast.Call) and self._effectful(node) and not any(self._effectful(a) for a in list(node.args) + [k.value for k in node.keywords]):
+                if not sure:
+                    raise Stuck(f"loop test at line {st.lineno} reads the file conditionally")
+                count[0] += 1
+                nm = f"<test {count[0]}>"
+                pre.append(ast.copy_location(ast.Assign(targets=[ast.Name(id=nm, ctx=ast.Store())], value=node), node))
+                return ast.copy_location(ast.Name(id=nm, ctx=ast.Load()), node)
+            if not self._effectful(node):
+                return node
+            if isinstance(node, ast.Compare):
+                new = ast.Compare(left=lift(node.left, sure), ops=node.ops, comparators=[lift(c, sure and i == 0) for i, c in enumerate(node.comparators)])
+            elif isinstance(node, ast.UnaryOp):
+                new = ast.UnaryOp(op=node.op, operand=lift(node.operand, sure))
+            elif isinstance(node, ast.BinOp):
+                new = ast.BinOp(left=lift(node.left, sure), op=node.op, right=lift(node.right, sure))
+            elif isinstance(node, ast.BoolOp):
+                new = ast.BoolOp(op=node.op, values=[lift(v, sure and i == 0) for i, v in enumerate(node.values)])
+            elif isinstance(node, ast.Subscript):
+                new = ast.Subscript(value=lift(node.value, sure), slice=lift(node.slice, sure), ctx=node.ctx)
+            elif isinstance(node, ast.Call):
+                new = ast.Call(func=node.func, args=[lift(a, sure) for a in node.args], keywords=node.keywords)
+            else:
+                raise Stuck(f"loop test at line {st.lineno} reads the file in a {type(node).__name__}")
+            return ast.copy_location(new, node)
+        test = lift(st.test, True)
+        stop = ast.If(test=ast.UnaryOp(op=ast.Not(), operand=test), body=[ast.Break()], orelse=[])
+        new = ast.While(test=ast.Constant(value=True), body=pre + [stop] + list(st.body), orelse=[])
+        for x in ast.walk(new):
+            if not hasattr(x, "lineno"):
+                ast.copy_location(x, st)
+        ast.copy_location(new, st)
+        return ast.fix_missing_locations(new)
+
     def _while_norm(self, st, orig=None):
-        plan = self._plan_while(st)
         orig = orig or st
+        hoisted = self._hoist_test(st)
+        if hoisted is not None:
+            st = hoisted
+        plan = self._plan_while(st)
         if plan is None:
             return self._while(st, orig=orig)
 
@@ -1627,6 +1741,20 @@ class Walker:
             self.guard = g0
             breaks = self._breaks.pop()
         carry = [(p, ev.env.get(nm)) for nm, p in ph.items() if not is_unknown(p)]
+        if not always and not is_unknown(test) and status is None and fr.items and fr.items[-1][0] == "if":
+            # `while t: ...; if <not t, on the values just computed>: break` - the break only anticipates the loop's own test
+            it = fr.items[-1]
+            a, b = tidy(it[2]), tidy(it[3])
+            brk = None
+            if a == [("exit", "break")] and not b:
+                brk = it[1]
+            elif b == [("exit", "break")] and not a:
+                brk = F.fn("not", it[1])
+            if brk is not None:
+                nxt = renamer([(p, v) for p, v in carry if v is not None and not is_unknown(v) and not isinstance(v, tuple)])(test)
+                if same(F.fn("not", brk), nxt, whole_values=False):
+                    fr.items.pop()
+                    breaks = [b_ for b_ in breaks[:-1]]
         lp = Loop("while", test, fr.items, carry, fid, orig if orig is not None else st, entry, g0, ph, forced, fr)
         lp.exits = status
         if is_unknown(test):
@@ -1719,7 +1847,11 @@ class Walker:
         pos = []
         for a in node.args:
             if isinstance(a, ast.Starred):
-                pos.append(Unknown("starred argument"))
+                v = ev.ev(a.value)
+                if isinstance(v, tuple):
+                    pos.extend(v)           # a literal sequence spread over the parameters
+                else:
+                    pos.append(Unknown("starred argument"))
             else:
                 pos.append(ev.ev(a))
         kws = {}
@@ -1781,6 +1913,9 @@ class Walker:
         elif isinstance(func, ast.Name) and func.id in ev.env and func.id not in ev.buffers:
             # a local that holds a bound method or a function
             fv = ev.env[func.id]
+            lf = self.local_funcs.get(sym_name(fv)) if fv is not None and not is_unknown(fv) and not isinstance(fv, tuple) else None
+            if lf is not None and self.follow is not False:
+                return self.inline(lf, node, ev, func.id, closure=True)
             bm = self._bound_method(fv)
             if bm is not None and (self.is_file(bm[0]) or bm[1] in ("unpack", "unpack_from")):
                 recv, meth = bm
@@ -1948,12 +2083,12 @@ class Walker:
         self.events.append(("read", at, need(n), node))
         return at
 
-    def inline(self, fn2, node, ev, name):
+    def inline(self, fn2, node, ev, name, closure=False):
         if self.depth >= 6 or fn2 in self.stack:
             raise Stuck(f"call chain too deep / recursive at {name} (line {node.lineno})")
         a = fn2.args
         params = [x.arg for x in a.posonlyargs + a.args]
-        if params and params[0] in ("self", "cls") and not any(isinstance(d, ast.Name) and d.id == "staticmethod" for d in fn2.decorator_list):
+        if params and params[0] in ("self", "cls") and not closure and not any(isinstance(d, ast.Name) and d.id == "staticmethod" for d in fn2.decorator_list):
             params = params[1:]
         pos, kws = self._args(node, ev)
         if a.vararg or a.kwarg or len(pos) > len(params):
@@ -1966,11 +2101,12 @@ class Walker:
                 if p_ not in dflt:
                     raise Stuck(f"call of {name}: parameter {p_} not bound (line {node.lineno})")
                 env[p_] = ev.ev(dflt[p_])
-        # attributes of self assigned by the caller so far stay visible to the callee
+        # attributes of self assigned by the caller so far stay visible to the callee; a local function sees the locals around it
         for k, v in ev.env.items():
-            if k.startswith("self.") and k not in env:
+            if (closure or k.startswith("self.")) and k not in env:
                 env[k] = v
         self.bound[id(fn2)] = dict(env)
+        self.events.append(("enter", fn2, self.guard, self.depth, node))
         span_frame, span_n0 = self.frame, self.frame.nloops
         sub = self._new_ev(fn2, env)
         keep = self.ev
@@ -2136,6 +2272,18 @@ def _is_simple(f):
     if any(isinstance(n, (ast.Yield, ast.YieldFrom, ast.Await, ast.Lambda)) for n in ast.walk(f)):
         return False
     return ok(f.body) and any(isinstance(n, ast.Return) and n.value is not None for n in ast.walk(f))
+
+
+def _is_property(f):
+    return any(isinstance(d, ast.Name) and d.id in ("property", "cached_property") or isinstance(d, ast.Attribute) and d.attr == "cached_property"
+               for d in f.decorator_list)
+
+
+def _lambda_def(node):
+    """`lambda a: e` as `def <lambda>(a): return e`"""
+    ret = ast.copy_location(ast.Return(value=node.body), node)
+    fd = ast.FunctionDef(name="<lambda>", args=node.args, body=[ret], decorator_list=[], returns=None, type_comment=None, type_params=[])
+    return ast.fix_missing_locations(ast.copy_location(fd, node))
 
 
 def _is_getter(f):
